@@ -294,6 +294,9 @@ def rule_namespace(model):
     for d in model.local_defs(call, mdvar):
         if isinstance(d, ast.Call):
             continue
+        if not isinstance(d, ast.AST):
+            raise AnalysisError(f'C18.R6: `{mdvar}` is bound in a way the '
+                                f'analysis does not follow ({d!r})')
         ok = isinstance(d, ast.Name) and d.id in call.params()
         r.instance(call.where, f'{mdvar} = {norm(d)}',
                    'caller namespace (sub-template)' if ok else 'SHARED')
